@@ -342,6 +342,7 @@ func (s *Session) run(ctx context.Context, calldepth int, funcv *bigslice.FuncVa
 	return &Result{
 		Slice:    slice,
 		sess:     s,
+		inv:      inv,
 		invIndex: inv.Index,
 		tasks:    tasks,
 	}, err
@@ -393,6 +394,8 @@ func (s *Session) HandleDebug(handler *http.ServeMux) {
 // bigslice.Func.
 type Result struct {
 	bigslice.Slice
+	// inv is the invocation that produced the result (driver only).
+	inv       execInvocation
 	invIndex  uint64
 	sess      *Session
 	tasks     []*Task
